@@ -1631,7 +1631,11 @@ def c16_e2e(res, wd, cases, replay_file=None):
         log("replay: C16 holds end to end for this device list with the current tree")
         return 0
     report(res, bad, kn, {c["id"]: c for c in cases}, {r["id"]: r for r in rows}, "E3-device-list-e2e")
-    return {"e2e_cases": judged, "e2e_auto_all_keyboards_runs_that_reached_the_scan": sum(1 for r in rows if r.get("auto_seen")), "e2e_how": "the real binary `remap --verbose` under unshare -m with fabricated /proc/bus/input/devices, /sys/devices and /dev/input on %d lists, "
+    unobs = [l for f in os.listdir(wd) if f.startswith("tlc_judge_DevSelect") for l in open(os.path.join(wd, f)) if l.startswith('<<"AUX"') or l.startswith('<< "AUX"')]
+    if unobs:
+        log("AUX: end-to-end selection: on %d device lists the binary's --verbose text is not consistent with itself (announced count vs listing); those paths are not judged from the text, "
+            "selection there is judged where devices are opened (fleet / supervisor runs). e.g. %s" % (len(unobs), unobs[0].strip()[:200]))
+    return {"e2e_cases": judged, "e2e_cases_with_a_path_whose_verbose_text_is_not_self_consistent": len(unobs), "e2e_auto_all_keyboards_runs_that_reached_the_scan": sum(1 for r in rows if r.get("auto_seen")), "e2e_how": "the real binary `remap --verbose` under unshare -m with fabricated /proc/bus/input/devices, /sys/devices and /dev/input on %d lists, "
                                              "--all-keyboards, --auto-all-keyboards and --dev-file --only-if-keyboard, selection read from its verbose output and judged by DevSelect.tla" % judged}
 
 
